@@ -1,12 +1,12 @@
 #!/bin/bash
 # tools/evalmut.sh <PROP> <patch.diff> [extra check args]   — apply a seeded change to /repo, run the check, undo it.
 P=$1; PATCH=$2; shift 2
-cd /repo || exit 9
+cd ${EVAL_ROOT:-}/repo || exit 9
 if ! git diff --quiet; then echo "/repo has uncommitted changes"; exit 9; fi
 git apply "$PATCH" || { echo "patch does not apply"; exit 9; }
-cd /verif
+cd ${EVAL_ROOT:-}/verif
 timeout 3000 ./check $P "$@" > /var/tmp/evalmut.$P.$$.log 2>&1
 rc=$?
-git -C /repo checkout -- .
+git -C ${EVAL_ROOT:-}/repo checkout -- .
 echo "rc=$rc $(grep -c '^VIOLATION' /var/tmp/evalmut.$P.$$.log) violation lines; $(grep '^VIOLATION\|^INCONCLUSIVE\|^OK' /var/tmp/evalmut.$P.$$.log | head -3 | cut -c1-220)"
 exit $rc
